@@ -4,7 +4,7 @@
    both are settled here.  Determinism of revm and the libraries underneath is an assumption,
    exercised by the two-process correspondence run. *)
 From Brc.Model Require Import Base History Table Logs.
-From Brc.Proofs Require Import HistoryP KvP TableP LogsP.
+From Brc.Proofs Require Import HistoryP KvP TableP ReplicaP LogsP.
 From BrcGen Require Import Consts.
 From Coq Require Import Sorting.Permutation.
 
@@ -31,6 +31,7 @@ Theorem C02_logs_function_of_ordered_rows :
     let t := match to with Some x => x | None => f end in
     r = filter (log_matches addr topics) (chain_logs f t rows) /\ t - f <= 5.
 Proof. exact get_logs_eq_spec. Qed.
+Print Assumptions C02_logs_function_of_ordered_rows.
 
 (* Consensus constants cannot drift while the protocol version stays 2. *)
 Theorem C02_consts_pinned :
@@ -41,3 +42,53 @@ Theorem C02_consts_pinned :
 Proof. vm_compute. intros H. first [reflexivity | discriminate H]. Qed.
 Print Assumptions C02_consts_pinned.
 
+
+(* ---------------------------------------------------------------------------------------
+   Whole histories.  A replica performs each table operation as the code does and then holds
+   its in-memory hash map in ANY order ([shuffle]: same rows, same entries, any permutation),
+   re-chosen after every operation.  Two replicas whose starting states represent the same
+   specification state (e.g. both fresh; or one holding in its cache what the other has
+   already in its rows), fed the same operations with every rollback inside the window,
+   answer every point read and every range scan identically - equal lists in equal order -
+   at the end of the history and at the end of every prefix of it. *)
+Theorem C02_replicas_agree_over_histories :
+  forall (V : Type) (veq : V -> V -> bool), (forall a b, veq a b = true <-> a = b) ->
+  forall (t1 t2 : @table V) (T : tspec) ops1 ops2 t1' t2',
+    TRepr W t1 T -> TRepr W t2 T -> run_in_window W T (ops1 ++ ops2) ->
+    replica_run veq W t1 ops1 t1' -> replica_run veq W t2 ops1 t2' ->
+    (forall k, t_latest t1' k = t_latest t2' k) /\
+    (forall lo hi, t_get_range t1' lo hi = t_get_range t2' lo hi).
+Proof. exact (fun V veq Hveq => replicas_agree_at_every_prefix veq Hveq W). Qed.
+Print Assumptions C02_replicas_agree_over_histories.
+
+(* The model's own deterministic run (what the correspondence check executes) is one such
+   replica, so the theorem speaks about it. *)
+Theorem C02_model_run_is_a_replica :
+  forall (V : Type) (veq : V -> V -> bool) ops (t t' : @table V),
+    t_run veq W t ops = Ok t' -> replica_run veq W t ops t'.
+Proof. exact (fun V veq ops => t_run_is_replica_run veq W ops). Qed.
+Print Assumptions C02_model_run_is_a_replica.
+
+(* "Restarted or not": dropping the process state at a clean boundary (current = saved
+   specification state) changes no read. *)
+Theorem C02_restart_unobservable :
+  forall (V : Type) (t : @table V) (T : tspec),
+    TRepr W t T -> (forall k m, ts_cur T k m = ts_sav T k m) -> ts_clk T = ts_sclk T ->
+    (forall k, t_latest (t_clear t) k = t_latest t k) /\
+    (forall lo hi, t_get_range (t_clear t) lo hi = t_get_range t lo hi).
+Proof. exact (fun V => @restarted_replica_agrees V W). Qed.
+Print Assumptions C02_restart_unobservable.
+
+(* Non-vacuity: two replicas of one history whose caches end up in opposite orders; the
+   range scan of both is the same key-ordered list. *)
+Example C02_nonvacuous_replicas :
+  let ops := [TSet 1 7 70; TSet 1 3 30; TSet 1 5 50] in
+  match t_run N.eqb W t_empty ops with
+  | Ok t =>
+      let t2 := mkTable (t_db t) (t_cdb t) (rev (t_cache t)) in
+      map fst (t_cache t) <> map fst (t_cache t2) /\
+      t_get_range t 0 10 = Ok [(3, 30); (5, 50); (7, 70)] /\
+      t_get_range t2 0 10 = Ok [(3, 30); (5, 50); (7, 70)]
+  | _ => False
+  end.
+Proof. vm_compute. repeat split. discriminate. Qed.
